@@ -8,21 +8,28 @@ EXTENDS HpoLinkage, TLC, Json
 
 CONSTANT Vals
 
-VARIABLE d0
+VARIABLES d0, w0
 
 Scale == 2 ^ N
-Init == /\ d0 \in [Pairs(0..(N - 1)) -> {v * Scale : v \in Vals}]
-        /\ LInit(d0)
-Next == Merge /\ UNCHANGED d0
-Spec == Init /\ [][Next]_<<lvars, d0>>
+(* union mode: the sets carry weights, the user distance is |W(A) - W(B)|; other modes: a free matrix *)
+Weights == [0..(N - 1) -> {1, 2, 4, 7, 12, 20}]
+Init == /\ IF Mode = "union"
+             THEN w0 \in {w \in Weights : \A i, j \in 0..(N - 1) : i < j => w[i] # w[j]}
+                  /\ d0 = [p \in Pairs(0..(N - 1)) |-> Abs(w0[p[1]] - w0[p[2]])]
+             ELSE w0 = [i \in 0..(N - 1) |-> 0] /\ d0 \in [Pairs(0..(N - 1)) -> {v * Scale : v \in Vals}]
+        /\ LInit(d0, w0)
+Next == Merge /\ UNCHANGED <<d0, w0>>
+Spec == Init /\ [][Next]_<<lvars, d0, w0>>
 
 PairSeq == SetToSortSeq(Pairs(0..(N - 1)), LAMBDA p, q : p[1] < q[1] \/ (p[1] = q[1] /\ p[2] < q[2]))
 
 Emit == (merges = <<>>) =>
   PrintT(<<"REPLAY", ToJson([ n |-> N, mode |-> Mode, scale |-> Scale,
                               d0 |-> [i \in 1..Len(PairSeq) |-> d0[PairSeq[i]]],
-                              allowed |-> Dendrograms(active, dist, nxt, merges) ])>>)
+                              w |-> [i \in 1..N |-> w0[i - 1]],
+                              allowed |-> LET D == Dendrograms(active, dist, nxt, merges, wt) DS == SetToSeq(D) IN
+                                          [i \in 1..Len(DS) |-> [merges |-> DS[i], indices |-> Indices(DS[i], 1)]] ])>>)
 
 (* the machine only ever produces allowed dendrograms *)
-MachineInSet == Done => merges \in Dendrograms(0..(N - 1), d0, N, <<>>)
+MachineInSet == Done => merges \in Dendrograms(0..(N - 1), d0, N, <<>>, w0)
 =============================================================================
